@@ -6,15 +6,17 @@ wt="$1"; m="$2"
 cd "$wt" || exit 2
 git checkout -q -- . 2>/dev/null
 demo="$m/demo.lay"; sess="$m/session.txt"
+feat="${SEEDED_FEATURES:-}"
 run_demo() {
-  if [ -f "$demo" ]; then (cd "$m" && timeout 60 "$wt/target/debug/laythe" demo.lay 2>/tmp/seeded_err.txt); echo "exit=$?";
-  else (cd "$m" && timeout 60 "$wt/target/debug/laythe" < session.txt 2>/tmp/seeded_err.txt); echo "exit=$?"; fi
+  if [ -f "$m/demo/main.lay" ]; then (cd "$m/demo" && timeout 120 "$wt/target/debug/laythe" main.lay 2>/tmp/seeded_err.$$.txt); echo "exit=$?";
+  elif [ -f "$demo" ]; then (cd "$m" && timeout 60 "$wt/target/debug/laythe" demo.lay 2>/tmp/seeded_err.$$.txt); echo "exit=$?";
+  else (cd "$m" && timeout 60 "$wt/target/debug/laythe" < session.txt 2>/tmp/seeded_err.$$.txt); echo "exit=$?"; fi
 }
 export CARGO_NET_OFFLINE=true
-cargo build -q -p laythe --offline 2>/dev/null
+cargo build -q -p laythe $feat --offline 2>/dev/null
 clean=$(run_demo)
 git apply "$m/patch.diff" || { echo "PATCH DOES NOT APPLY"; exit 1; }
-if ! cargo build -q -p laythe --offline 2>/tmp/seeded_build.txt; then echo "DOES NOT BUILD"; git checkout -q -- .; exit 1; fi
+if ! cargo build -q -p laythe $feat --offline 2>/tmp/seeded_build.$$.txt; then echo "DOES NOT BUILD"; git checkout -q -- .; exit 1; fi
 mut=$(run_demo)
 suite=$(cargo nextest run --workspace --no-fail-fast --offline --test-threads 16 2>&1 | grep -E "Summary" | sed 's/.*tests run: //')
 git checkout -q -- .
